@@ -191,7 +191,9 @@ def drawsNoise (b : Battery.Batt K) (pilot V T : K) : Bool :=
   b.twoStage && decide (0 < b.noiseLevel) && !decide (V ≤ 0) && !decide (T ≤ 0) &&
     (match b.cmode with
      | .stepwise => true
-     | .continuous => decide (pilot < 0) || decide (0 < pilot))
+     | .continuous =>
+       -- no draw on the early returns: zero pilot, and (fix F18) a full battery
+       (decide (pilot < 0) || decide (0 < pilot)) && !decide (1 ≤ Battery.soc b))
 
 /-- `EVSE.set_pilot` for station number `i` (charging_network.py:424-428) -/
 def setPilotAt (cfg : Cfg K) (s : State K) (i : Nat) (st : Station K) : State K × Option Err :=
